@@ -147,6 +147,34 @@ fn ident_tokens(text: &str) -> Vec<&str> {
     out
 }
 
+/// the probe program that declares <name> in <position> and uses it
+pub fn probe_source(position: &str, name: &str) -> Option<String> {
+    POSITIONS.iter().find(|(p, _)| *p == position).map(|(_, t)| t.replace('@', name))
+}
+pub fn probe_positions() -> Vec<&'static str> { POSITIONS.iter().map(|(p, _)| *p).collect() }
+
+/// programs in which several symbols of one scope want the same name (overloads, a struct / enum / global / namespace
+/// called like a function of another scope or like a `name_N` form), each of them used afterwards
+pub fn clash_program(seed: u64) -> String {
+    let mut rng = Rng::new(seed ^ 0xc1a5);
+    let base = *rng.pick(&["f", "val", "Item", "abs", "uint64_t", "float16_t", "texture", "main", "T"]);
+    let mut s = String::new();
+    let mut uses = String::new();
+    let n = rng.range(2, 5);
+    for k in 0..n {
+        match rng.below(6) {
+            0 => { s += &format!("struct {}_{} {{ int m; }};\n", base, k); uses += &format!("    {}_{} s{}; s{}.m = {}; r += s{}.m;\n", base, k, k, k, k, k); }
+            1 => { s += &format!("static int {}_{} = {};\n", base, k, k); uses += &format!("    r += {}_{};\n", base, k); }
+            2 => { s += &format!("int {}(int a{}[{}]) {{ return a{}[0]; }}\n", base, k, k + 1, k); uses += &format!("    int q{}[{}]; q{}[0] = {}; r += {}(q{});\n", k, k + 1, k, k, base, k); }
+            3 => { s += &format!("namespace N{} {{ struct {} {{ int m; }}; int {}_0() {{ return {}; }} }}\n", k, base, base, k); uses += &format!("    N{}::{} t{}; t{}.m = 1; r += t{}.m + N{}::{}_0();\n", k, base, k, k, k, k, base); }
+            4 => { s += &format!("enum {}_{}e {{ {}_{}v = {} }};\n", base, k, base, k, k); uses += &format!("    r += (int){}_{}e::{}_{}v;\n", base, k, base, k); }
+            _ => { s += &format!("int {}_{}(float x) {{ return {}; }}\n", base, k, k); uses += &format!("    r += {}_{}(1.0f);\n", base, k); }
+        }
+    }
+    if rng.chance(1, 2) { s += &format!("struct {} {{ int m; }};\n", base); uses += &format!("    {} z; z.m = 3; r += z.m;\n", base); }
+    format!("{}int run() {{\n    int r = 0;\n{}    return r;\n}}\n", s, uses)
+}
+
 /// R <target> <position> <name>: declare <name> in the given position; the emitted source must not use it as an identifier
 fn run_reserved(target: &str, position: &str, name: &str) -> String {
     let tpl = match POSITIONS.iter().find(|(p, _)| *p == position) {
